@@ -90,7 +90,7 @@ def requirements(tier):
         "matrix:qsw": 3000 * k, "matrix:tnw": 3000 * k, "matrix:hyperbolic": 1000 * k, "matrix:elliptic": 1000 * k,
         "matrix:expanded": 1000 * k,
         "frame:orientation-None": 100 * k, "frame:orientation-QSW": 100 * k, "frame:orientation-TNW": 100 * k,
-        "dkep:keplerian-continuous-man": 2000 * k, "dkep:keplerian-continuous-man-second-state": 2000 * k, "knum:iter-from-later-start": 40 * k, "knum:later-start:applications-counted": 60 * k, "knum:later-start:impulse-far": 15 * k, "frame:reference-is-an-ephemeris": 15 * k, "frame:reference-orbit-about-the-moon": 20 * k, "frame:origin": 900 * k, "frame:roundtrip": 900 * k, "frame:axes": 900 * k, "frame:moving": 120 * k, "frame:static": 20 * k,
+        "dkep:keplerian-continuous-man": 2000 * k, "dkep:keplerian-continuous-man-second-state": 2000 * k, "knum:iter-from-later-start": 40 * k, "knum:several-bodies": 40 * k, "knum:later-start:applications-counted": 60 * k, "knum:later-start:impulse-far": 15 * k, "frame:reference-is-an-ephemeris": 15 * k, "frame:reference-orbit-about-the-moon": 20 * k, "frame:origin": 900 * k, "frame:roundtrip": 900 * k, "frame:axes": 900 * k, "frame:moving": 120 * k, "frame:static": 20 * k,
         "mandv:impulsive": 1500 * k, "mandv:continuous": 1500 * k, "mandv:tag-QSW": 500 * k, "mandv:tag-TNW": 500 * k, "mandv:tag-None": 500 * k,
         "mandv:hyperbolic": 300 * k, "mandv:duration-multi-day": 200 * k, "mandv:duration-whole-days": 200 * k, "mandv:check-tiling": 1000 * k,
         "dkep:judged": 3000 * k, "dkep:da": 1000 * k, "dkep:di": 1000 * k, "dkep:dOmega": 1000 * k, "dkep:realised": 2000 * k,
@@ -817,6 +817,72 @@ def later_start_scenario(ctx, rng, st, epoch, edesc):
                   f"(step-grid freedom allows {allowed:.1f} m); first impulse {(t1 - start_s) / h_s:.2f} steps after the start")
 
 
+def several_bodies_scenario(ctx, rng, st, epoch, edesc):
+    """A burn under a force model with several attracting bodies (Earth + Moon [+ Sun]) delivers its stated delta-v, not a
+    multiple of it.  Oracle without any model of the third-body terms: the same propagator run WITH and WITHOUT the burn; at
+    the end of a short burn along fixed inertial axes the velocity difference is accel x duration, up to the differential
+    gravity picked up by the displacement (bounded by 3 mu/r^3 |a| T^3 / 6 x 2) and the boundary steps of the quadrature.
+    Hook side: in one evaluation of the derivative each active burn is asked for its acceleration exactly once."""
+    from beyond.dates import timedelta
+    from beyond.env.solarsystem import get_body
+    from beyond.orbits import Orbit
+    from beyond.orbits.man import ContinuousMan
+    from beyond.propagators.keplernum import KeplerNum
+
+    mu = st["mu"]
+    method = rng.choice(["rk4", "rk4", "dopri54"])
+    h_s = rng.choice([10, 20, 30])
+    names = rng.choice([("Earth", "Moon"), ("Earth", "Moon", "Sun"), ("Earth", "Sun")])
+    k, state = knum_orbit(rng, st, epoch, h_s, 40)
+    T = rng.choice([4, 6, 8, 10]) * h_s
+    t0 = rng.randint(2, 6) * h_s
+    acc = rand_vec(rng, -3, -1)
+    given = rng.choice(["accel", "dv"])
+    w = dict(k, scenario="burn under several attracting bodies, with / without the burn", bodies=list(names), method=method, h_s=h_s, burn_start_s=t0,
+             burn_duration_s=T, accel=acc, given=given, epoch=edesc)
+
+    def run(with_burn):
+        prop = KeplerNum(timedelta(seconds=h_s), [get_body(n_) for n_ in names], method=method)
+        o = Orbit(state, epoch, "cartesian", "EME2000", prop)
+        if with_burn:
+            kw = dict(accel=acc.copy()) if given == "accel" else dict(dv=acc * float(T))
+            o.maneuvers = [ContinuousMan(epoch + timedelta(seconds=t0), timedelta(seconds=T), frame=None, date_pos="start", **kw)]
+        return o, probe.arr(o.propagate(epoch + timedelta(seconds=t0 + T)))
+
+    log = st["log"]
+    del log[:]
+    try:
+        with probe.CallBudget(KeplerNum, "_make_step", 4000):
+            ob, with_ = run(True)
+            steps = parse_log(log)
+            del log[:]
+            _o, without = run(False)
+    except Exception as exc:
+        del log[:]
+        ctx.violation("C17/knum-propagation-raises", dict(w, exc=repr(exc)), f"propagation with several attracting bodies raised {exc!r}")
+        return
+    del log[:]
+    ctx.count("knum:several-bodies")
+    ctx.count("knum:several-bodies:" + "+".join(names))
+    man = ob.maneuvers[0]
+    worst = 0
+    for s_ in steps:
+        for a in s_["accels"]:
+            worst = max(worst, sum(1 for ev in a["thrusts"] if ev[1] is man))
+    ctx.expect(worst <= 1, "C17/knum-thrust-counted-once-per-attracting-body", dict(w, times_in_one_evaluation=worst),
+               f"in one evaluation of the derivative the burn is asked for its acceleration {worst} times ({len(names)} attracting bodies)")
+    dv_seen = with_[3:] - without[3:]
+    dv_stated = acc * float(T)
+    r = float(np.linalg.norm(without[:3]))
+    rmin = min(r, float(np.linalg.norm(state[:3])), k["a"] * (1 - k["e"]))
+    na = float(np.linalg.norm(acc))
+    allowance = 2 * 3 * mu / rmin ** 3 * na * T ** 3 / 6 + 2 * BOUNDARY_FRACTION[method] * h_s * na + 1e-9
+    d = float(np.linalg.norm(dv_seen - dv_stated))
+    ctx.resid("knum:several-bodies:delivered-dv (m/s)", d, allowance, key="C17/knum-burn-delivers-a-multiple-of-its-dv-with-several-bodies",
+              witness=dict(w, velocity_difference_with_minus_without=dv_seen, stated_dv=dv_stated, ratio=float(np.linalg.norm(dv_seen) / np.linalg.norm(dv_stated))),
+              msg=f"{'+'.join(names)}: velocity gained by the burn {np.linalg.norm(dv_seen):.6g} m/s, stated {np.linalg.norm(dv_stated):.6g} m/s")
+
+
 def case_knum(ctx, job, idx, rng, st):
     from beyond.dates import timedelta
     from beyond.env.solarsystem import get_body
@@ -936,6 +1002,9 @@ def case_knum(ctx, job, idx, rng, st):
         return
     if not burn_job and idx % 4 == 0:
         later_start_scenario(ctx, rng, st, epoch, edesc)
+        del log[:]
+    if burn_job and idx % 3 == 0:
+        several_bodies_scenario(ctx, rng, st, epoch, edesc)
         del log[:]
     # ---- per step: "state + delta-v", thrust is an acceleration on the right stages ------------------
     applied = {}
